@@ -10,7 +10,8 @@
      server/lib/src/server/access/modify.rs  modify_sync_constrain (user edits of sync objects)
    Uuids, classes, attributes and values are numbers (tables below; harness/src/bin/c50.rs uses the
    same tables and a CSchema case compares them with the live schema on every run).
-   Flags [fixr] / [fixp]: false = the code before /verif/fixes/C50.patch, true = after it. *)
+   Flags [fixr] / [fixp]: true = the code as it is (with /verif/fixes/C50.patch, /repo 7a11b7d),
+   false = the code before that fix (documented by the C50_prefix_* theorems). *)
 From Coq Require Import List NArith Bool.
 Import ListNotations.
 Open Scope N_scope.
@@ -355,9 +356,10 @@ Definition step (fixr fixp : bool) (s : st) (o : op) : res * st :=
 Definition run (fixr fixp : bool) (s : st) (ops : list op) : st :=
   fold_left (fun s o => snd (step fixr fixp s o)) ops s.
 
-(* the tree this check is run against: false = before /verif/fixes/C50.patch *)
-Definition tree_fixed_reserved : bool := false.
-Definition tree_fixed_phantom : bool := false.
+(* the tree this check is run against: /repo contains /verif/fixes/C50.patch (commit 7a11b7d);
+   false/false = the tree before it, kept as the `prefix` variant in Props.v *)
+Definition tree_fixed_reserved : bool := true.
+Definition tree_fixed_phantom : bool := true.
 Definition step_tree := step tree_fixed_reserved tree_fixed_phantom.
 
 (* ------------------------------------------------------------------ equality tests *)
@@ -453,7 +455,8 @@ Definition pcheck_step (s : st) (o : op) (r : res) (s' : st) : bool :=
     end
   end.
 
-(* known finding classes of the tree before /verif/fixes/C50.patch *)
+(* the two defect classes of the tree before /verif/fixes/C50.patch (documentation of the pre-fix
+   behaviour; no known class remains on the current tree) *)
 Definition has_import (se : sent) : bool := is_some (lookup (se_attrs se) A_PasswordImport).
 (* reserved-stub: an accepted request names a not yet existing uuid below DYNAMIC_RANGE_MINIMUM_UUID *)
 Definition known_reserved (s : st) (o : op) : bool :=
@@ -502,8 +505,4 @@ Definition pcheck (c : case) : bool :=
   | CStep s o r s' => pcheck_step s o r s'
   | CSchema _ _ => true
   end.
-Definition known (c : case) : bool :=
-  match c with
-  | CStep s o r _ => known_step tree_fixed_reserved tree_fixed_phantom s o r
-  | CSchema _ _ => false
-  end.
+Definition known (_ : case) : bool := false.
